@@ -1140,6 +1140,14 @@ int main(void) {
         /* let the server side notice the disconnect */
         guard = 0;
         while (p->cid >= 0 && clients[p->cid].gone == 0 && guard++ < 4000) vsleep_ms(5);
+        /* ... and its input thread has finished tearing the client down */
+        guard = 0;
+        while (p->cid >= 0 && guard++ < 4000) {
+          int j, busy = 0;
+          for (j = 0; j < nthr; j++) if (thr[j].lib && (thr[j].role == 'I' || thr[j].role == 'O') && thr[j].cid == p->cid && thr[j].state != T_EXITED) busy = 1;
+          if (!busy) break;
+          vsleep_ms(5);
+        }
         free(p->fb); p->fb = NULL;
       }
       unj1 = lib_threads_unjoined(&alive1);
